@@ -18,7 +18,7 @@ FUNCTIONS = [
 ]
 
 LAYOUTS = ["single:f1", "single:f2", "single:f3", "single:K1", "list:f1,f3", "dict:grp(f1,f3),f2", "single:f4", "list:f4,f3", "single:f5", "list:f5,f1", "single:f6", "list:f6,f3",
-           "list:f1,K1"]
+           "single:f7", "list:f7,f3", "list:f1,K1"]
 
 
 def _components(layout):
@@ -161,7 +161,7 @@ def main(rep, tier):
         "the components=None module-scan form, async callees, methods with a 'config' parameter are outside",
     ]
     jobs = []
-    for layout in (LAYOUTS if tier == "thorough" else LAYOUTS[:12]):
+    for layout in (LAYOUTS if tier == "thorough" else LAYOUTS[:14]):
         jobs.append(dict(module="c12", func="cli", kwargs=dict(layout=layout), timeout=600))
         if layout.startswith("single"):
             jobs.append(dict(module="c12", func="cli", kwargs=dict(layout=layout, via_config=True), timeout=600))
